@@ -215,6 +215,12 @@ def r2_neutral(repo):
     return obs
 
 
+def _top(f):
+    while f.outer is not None:
+        f = f.outer
+    return f
+
+
 def r3_no_ir_writes(repo):
     obs = []
     for lang, q in sorted(TRANSLATORS.items()):
@@ -243,6 +249,15 @@ def r3_no_ir_writes(repo):
         obs.append(Ob("C11-R3", "%s:container-writes-not-rooted-at-the-node" % lang, _w(cls), not node_rooted,
                       "%d container writes, rooted at the visited node / program / context: %s"
                       % (len(cont), [e.describe() for _f, e in node_rooted][:4])))
+        # the translator's own methods (constructor included) get caller-owned objects as parameters (options dict,
+        # program, nodes): none of them may be mutated as a container either (`options.pop(...)` changes what the next
+        # translator built from the same options sees)
+        own = {m.qualname for c in cls.mro() for m in c.methods.values()}
+        own_param = [(f, e) for f, e in cont if (f.qualname in own or (f.outer is not None and _top(f).qualname in own))
+                     and any(t.startswith("param:") for t in e.tags)]
+        obs.append(Ob("C11-R3", "%s:translator-methods-mutate-no-parameter" % lang, _w(cls), not own_param,
+                      "container mutations of a parameter inside the translator's own methods: %s"
+                      % [e.describe() for _f, e in own_param][:4]))
         if len(fns) < 80:
             raise AnalysisError("closure of %s unexpectedly small (%d)" % (cls.name, len(fns)), rule="C11-R3", anchor=q)
     return obs
